@@ -240,6 +240,8 @@ def match_known(prop, clause, op, known):
 # ---------------------------------------------------------------- evidence
 
 def write_evidence(prop, tier, seed, level, coverage, wall, violations, assumptions):
+    if os.environ.get("VERIF_NOEVIDENCE"):   # trial runs against seeded changes must not overwrite evidence
+        return
     os.makedirs(os.path.join(VERIF, "evidence"), exist_ok=True)
     ev = dict(property_id=prop, tier=tier, seed=int(seed), level=level, coverage=coverage,
               assumptions=assumptions, wall_s=round(wall, 2), violations=int(violations))
